@@ -194,8 +194,9 @@ Definition tx_build (c : tx_case) : result tx_obs :=
                | Some h => let* b := mint_case h in Ok (Some b)
                | None => Ok None
                end in
-  let w := ws_partial_dedup None (some_nonempty (t_native c)) None None
-             (match t_extra_datums c with [] => None | l => Some (mk_plist l None) end) in
+  (* build_tx_unsafe -> get_witness_set: the combined native scripts and the extra datums go through the typed setters
+     (new_with_partial_dedup is only used for the fake transaction that sizes the fee) *)
+  let w := ws_run [SetNative (t_native c); SetData (mk_plist (t_extra_datums c) None)] in
   Ok (mk_txo (tin_set (t_inputs c)) (tin_set (t_collateral c))
              (ref_inputs (t_dedup_flag c) (tin_set (t_inputs c)) (t_script_refs c) (t_explicit_refs c))
              (items (from_vec bytes_eqb (t_signers c)))
